@@ -259,7 +259,16 @@ func (d *Driver) pending(st *Step, b *Browser) {
 	case "corrupt-cookie":
 		if c := b.Cookie(csrfName); c != nil {
 			c.Value = Corrupt(c.Value, st.Str, st.Arg, "")
+			d.O.noteCorrupted(c.Value, st.Str)
 		}
+	case "corrupt-both": // neither the state nor the cookie is a value the proxy sealed
+		nv := Corrupt(q.Get("state"), st.Str, st.Arg, "query")
+		d.O.noteCorrupted(nv, st.Str)
+		q.Set("state", nv)
+		// (a completed callback has cleared the cookie from the jar: the value is the one this flow was started with)
+		cv := Corrupt(f.CSRF, st.Str, st.Arg+1, "")
+		d.O.noteCorrupted(cv, st.Str)
+		setCookie(csrfName, cv)
 	case "corrupt-code":
 		nv := Corrupt(q.Get("code"), st.Str, st.Arg, "query")
 		d.O.noteCorrupted(nv, st.Str)
